@@ -94,7 +94,7 @@ def preOK : List Char → Bool
 
 /-- well-formed lexemes.  Identifiers, undecorated declarator names and the first name of a name list that is glued to `}` are not
     keywords; an enum's name is a word (or
-    absent), its base type consists of words separated by single blanks; the name of a `#define` has no white space, its
+    absent), its base type consists of words separated by blanks (any number, any kind); the name of a `#define` has no white space, its
     value starts with a non-blank and has no line break; the count of a declarator has no `;` and no newline. -/
 def Lexeme.wf : Lexeme → Bool
   | .ident v => (match v with | c :: _ => isIdStart c | [] => false) && v.all isWord && !isKeyword v
@@ -107,7 +107,7 @@ def Lexeme.wf : Lexeme → Bool
     blank ws1 && !ws1.isEmpty && nm.all isWord && blank ws2 && (!nm.isEmpty || ws2.isEmpty) &&
     (match ty with
       | none => true
-      | some (a, t, b) => blank a && blank b && t.all (fun c => isWord c || c == ' ') &&
+      | some (a, t, b) => blank a && blank b && t.all (fun c => isWord c || isWsA c) &&
           (match t with | c :: _ => isWord c | [] => false) && (match t.getLast? with | some c => isWord c | none => false)) &&
     !vals.isEmpty && vals.all (· != '}')
   | .define ws1 nm ws2 val =>
@@ -180,6 +180,23 @@ def tokOf (x : Lexeme) (s : List Char) : Tok :=
 def toks : List (Lexeme × List Char) → List Tok
   | [] => []
   | (x, s) :: rest => tokOf x s :: toks rest
+
+/-- two lexemes that are the same up to the blanks INSIDE an enum head: around the name, around `:`, and between the words of a
+    multi-word base type (the handlers read the type as `" ".join(type.split())`) -/
+def lexSim : Lexeme → Lexeme → Bool
+  | .enum fl _ nm _ ty vals, .enum fl' _ nm' _ ty' vals' =>
+    fl == fl' && nm == nm' && vals == vals' &&
+    (match ty, ty' with
+      | none, none => true
+      | some (_, t, _), some (_, t', _) => normType t == normType t'
+      | _, _ => false)
+  | x, y => x == y
+
+/-- the same lexemes up to `lexSim`, with any separators -/
+def simLexemes : List (Lexeme × List Char) → List (Lexeme × List Char) → Bool
+  | [], [] => true
+  | (x, _) :: r, (x', _) :: r' => lexSim x x' && simLexemes r r'
+  | _, _ => false
 
 /-- the same lexemes with other separators -/
 abbrev sameLexemes (l l' : List (Lexeme × List Char)) : Prop := l.map (·.1) = l'.map (·.1)
